@@ -20,8 +20,9 @@ import (
 type PrepVariant struct {
 	MapMode int    `json:"map_mode"`
 	MapSeed uint64 `json:"map_seed"`
-	Perm    int64  `json:"perm"`   // seed of the textual permutation of steps / outputs (0 = as generated)
-	Rename  bool   `json:"rename"` // consistently rename every step
+	Perm    int64  `json:"perm"`             // seed of the textual permutation of steps / outputs (0 = as generated)
+	Rename  bool   `json:"rename"`           // consistently rename every step
+	Scheme  int    `json:"scheme,omitempty"` // naming scheme of the renaming (see renameProgram)
 }
 
 // PrepCase is a preparation-only case (C10, C16).
@@ -44,12 +45,21 @@ type prepResult struct {
 
 var inferredRe = regexp.MustCompile(`[a-z_]+_[a-z0-9]{32}`)
 
-func renameProgram(p *ir.Program) (*ir.Program, map[string]string) {
+// renameProgram renames every step consistently. Scheme 0 gives unrelated names; 1 and 2 give names that
+// are prefixes of one another (zzq, zzqx, zzqxx ...), later steps getting the longer (1) or the shorter
+// (2) ones: a name must be an identifier, never a prefix to match on.
+func renameProgram(p *ir.Program, scheme int) (*ir.Program, map[string]string) {
 	q := p.Clone()
 	back := map[string]string{}
 	fwd := map[string]string{}
 	for i, s := range q.Steps {
 		n := fmt.Sprintf("zz_%d_%s", len(q.Steps)-i, s.ID)
+		switch scheme {
+		case 1:
+			n = "zzq" + strings.Repeat("x", i)
+		case 2:
+			n = "zzq" + strings.Repeat("x", len(q.Steps)-1-i)
+		}
 		fwd[s.ID] = n
 		back[n] = s.ID
 	}
@@ -335,7 +345,7 @@ func (pc *PrepCase) body(c *Case) func(b *harness.BodyCtx) {
 			prog := permuteProgram(c.Program, v.Perm)
 			back := map[string]string{}
 			if v.Rename {
-				prog, back = renameProgram(prog)
+				prog, back = renameProgram(prog, v.Scheme)
 			}
 			b.Sim.SetMapOrder(v.MapMode, v.MapSeed)
 			files := map[string][]byte{}
@@ -420,6 +430,9 @@ func genPrepVariants(t *rapid.T, n int, permute, rename bool) []PrepVariant {
 		}
 		if rename && i > 0 {
 			v.Rename = rapid.Bool().Draw(t, "v_rename")
+			if v.Rename {
+				v.Scheme = rapid.IntRange(0, 2).Draw(t, "v_rename_scheme")
+			}
 		}
 		vs = append(vs, v)
 	}
